@@ -214,6 +214,11 @@ def _support(spec, ctx):
     if fam == 'truncnorm':
         ctx.check(model.min == lo and model.max == hi, 'support.user-bounds-kept', 'C04:truncnorm-user-bounds-changed',
                   lambda: dict(where, given=[lo, hi], now=[model.min, model.max]))
+        okq, ends = ctx.call(model.percent_point, np.array([0.0, 1.0]))
+        if okq:
+            ends = np.asarray(ends, dtype=float)
+            ctx.check(abs(ends[0] - lo) <= 1e-9 * span and abs(ends[1] - hi) <= 1e-9 * span, 'support.is-user-bounds',
+                      'C04:truncnorm-fitted-support-is-not-the-user-bounds', lambda: dict(where, given=[lo, hi], fitted_support=ends))
     ctx.nontriv('support|%s|%d' % (fam, spec['seed']))
 
 
